@@ -43,6 +43,9 @@ func VerifT3Replay() {
 	case "slice":
 		verifT3Slice()
 		return
+	case "mapmarshal":
+		verifT3MapMarshal()
+		return
 	case "structopts":
 		verifT3StructOptions()
 		return
@@ -453,6 +456,33 @@ func verifT3Slice() {
 			if e1 == nil && e2 == nil {
 				v.Assert(reflect.DeepEqual(a1, a2), fmt.Sprintf("decoding %q into []int (reused storage: %v): sonic gives %v, encoding/json %v", text, reuse, a1, a2))
 			}
+		}
+	}
+}
+
+type verifMapM map[string]int
+
+func (m verifMapM) MarshalJSON() ([]byte, error) { return []byte(`{"n":0}`), nil }
+
+type verifMapT map[string]int
+
+func (m verifMapT) MarshalText() ([]byte, error) { return []byte("labels"), nil }
+
+// verifT3MapMarshal: nil and non-nil values of map types that implement a marshaler interface,
+// in non-addressable positions (top level, interface contents, map values, fields of a struct
+// passed by value): sonic and encoding/json produce the same text.
+func verifT3MapMarshal() {
+	type holder struct {
+		A verifMapM
+		B verifMapT
+	}
+	vals := []interface{}{verifMapM(nil), verifMapT(nil), verifMapM{"x": 1}, verifMapT{"x": 1}, holder{}, map[string]verifMapM{"k": nil}, []interface{}{verifMapM(nil)}}
+	for _, val := range vals {
+		want, e2 := json.Marshal(val)
+		got, e1 := ConfigStd.Marshal(val)
+		v.Assert((e1 == nil) == (e2 == nil), fmt.Sprintf("sonic and encoding/json disagree on failing for %T", val))
+		if e1 == nil && e2 == nil {
+			v.Assert(string(got) == string(want), fmt.Sprintf("Marshal(%#v): sonic gives %s, encoding/json %s", val, got, want))
 		}
 	}
 }
